@@ -50,6 +50,14 @@ def gen_query(rng, G):
             cols.append([A(fields["FSize"]), Tok("alias", ariths[ar][0], list(ariths[ar]), pair="arith"), L(str(rng.randint(1, 9)))])
         else:
             cols.append([A(funcs["FnCurrentDate"]), Tok("optparens")])
+    aggregate = rng.random() < 0.15
+    if aggregate:
+        # an aggregate query: count(*) - the `*` directly after the bracket, in either bracket style - next to other aggregates
+        oc = rng.randrange(2)
+        cols = [[A(funcs["FnCount"]), Tok("open", pair=oc), L("*"), Tok("close", pair=oc)]]
+        if rng.random() < 0.5:
+            oc2 = rng.randrange(2)
+            cols.append([A(funcs[rng.choice(["FnSum", "FnMax", "FnMin"])]), Tok("open", pair=oc2), A(fields["FSize"]), Tok("close", pair=oc2)])
     for i, c in enumerate(cols):
         if i:
             toks.append(Tok("comma"))
@@ -88,10 +96,10 @@ def gen_query(rng, G):
                 toks += [A(fields["FSize"]), W("between"), L("3"), W("and"), L("50")]
             if br:
                 toks.append(Tok("close", pair=oc))
-    if rng.random() < 0.35:
+    if rng.random() < 0.35 and not aggregate:
         # `group` is also a column name, so it is matched by text in three places of the parser
         toks += [W("group"), W("by"), A(fields[rng.choice(["FName", "FExtension", "FIsDir"])])]
-    if rng.random() < 0.5:
+    if rng.random() < 0.5 and not aggregate:
         toks += [W("order"), W("by"), A(fields[rng.choice(["FName", "FSize"])])]
         toks.append(Tok("opt", "asc") if rng.random() < 0.5 else W("desc"))
     if rng.random() < 0.3:
@@ -273,6 +281,6 @@ def run(ctx):
                 ctx.notes.append("%s: witness no longer fails; update KNOWN_FINDINGS.json" % k["id"])
     ctx.coverage.update(
         evaluations=len(cases) + nrows, distinct_nontrivial=len(st["distinct"]), traces_validated_against_impl=st["agreed"],
-        rule="valid queries from a typed generator (1-4 columns incl. functions/arithmetic, root options (after FROM, or directly after the columns in a query without FROM), WHERE with all operator kinds, brackets, GROUP BY (directly after the root options and after WHERE), ORDER BY, LIMIT, INTO) x renderings: split at every whitespace, random split sets (keeping the search root alone in its argument, see F23), EVERY alias of every aliased token one at a time (alias groups read from the regenerated Field / Function / Op / arithmetic tables), a case variant of every word, the other bracket style, optional tokens (select, commas, asc, () after an argument-less function) and random mixtures; the parsed Query of the real parser must be identical to that of the canonical rendering, and (sampled) the binary's output identical. non-trivial = a rendering that differs textually from the canonical one",
+        rule="valid queries from a typed generator (1-4 columns incl. functions/arithmetic, or aggregates with count(*) in either bracket style, root options (after FROM, or directly after the columns in a query without FROM), WHERE with all operator kinds, brackets, GROUP BY (directly after the root options and after WHERE), ORDER BY, LIMIT, INTO) x renderings: split at every whitespace, random split sets (keeping the search root alone in its argument, see F23), EVERY alias of every aliased token one at a time (alias groups read from the regenerated Field / Function / Op / arithmetic tables), a case variant of every word, the other bracket style, optional tokens (select, commas, asc, () after an argument-less function) and random mixtures; the parsed Query of the real parser must be identical to that of the canonical rendering, and (sampled) the binary's output identical. non-trivial = a rendering that differs textually from the canonical one",
         samples=st["samples"], distribution=dict(st["hist"]))
     return ctx.finish(trusted=["the alias groups are the ones the source's own lookup tables define (regenerated on this run); docs/usage.md is compared with them in props/C11.v"])
